@@ -139,10 +139,10 @@ def case_kernel(case):
                 continue
             fn = "%s-iter.csv" % r
             if fn not in files:
-                if k.bodies[r] != 0:
-                    res.append(("numIters", "trace-file-missing", feats | {"rank:" + r}, k.bodies[r], None))
-                else:
-                    core.CUR.path("iter-trace-absent-for-zero-bodies")
+                # a registered file trace is written at endCollect() even when its rank was never reached
+                # (an empty file: Compute.numIters reports 0 for it)
+                res.append(("numIters", "trace-file-missing", feats | {"rank:" + r} |
+                            ({"rank_never_reached"} if k.bodies[r] == 0 else set()), k.bodies[r], None))
                 continue
             with open(prefix + "-tmp.csv", "w") as f:
                 f.write(files[fn])
@@ -210,8 +210,8 @@ def case_explicit(case):
         for r, t in regs:
             fn = "%s-iter.csv" % r
             if fn not in files:
-                if k.bodies[r] != 0:
-                    res.append(("numIters", "trace-file-missing", feats, k.bodies[r], None))
+                res.append(("numIters", "trace-file-missing", feats |
+                            ({"rank_never_reached"} if k.bodies[r] == 0 else set()), k.bodies[r], None))
                 continue
             with open(prefix + "-tmp.csv", "w") as f:
                 f.write(files[fn])
@@ -295,10 +295,13 @@ def case_assign_leaf(case):
             if got != want:
                 out.append(("numOps", "count-" + op, feats, want, got))
         if "M-iter.csv" in files:
-            n_rows = len([ln for ln in files["M-iter.csv"].splitlines() if ln.strip()]) - 1
+            with open(prefix + "-tmp.csv", "w") as f:
+                f.write(files["M-iter.csv"])
+            n_rows = Compute.numIters(prefix + "-tmp.csv")
+            os.remove(prefix + "-tmp.csv")
             if n_rows != bodies:
                 out.append(("numIters", "iteration-count", feats, bodies, n_rows))
-        elif bodies:
+        else:
             out.append(("numIters", "trace-file-missing", feats, bodies, None))
         if bodies:
             core.CUR.nt("assign-leaf")
@@ -509,7 +512,8 @@ def _run_session(i):
                 Metrics.endCollect()
             except Exception:
                 Metrics.collecting = False
-    dump = copy.deepcopy(Metrics.dump())
+    _LAST["live"] = Metrics.dump()          # the object handed to the caller (kept across later sessions)
+    dump = copy.deepcopy(_LAST["live"])
     files = _files(prefix)
     if SESSIONS[i][0] in DIRTY:
         # what a half-open session reports is not compared: only what it does to later sessions
@@ -517,8 +521,12 @@ def _run_session(i):
     return (dump, files, out, err)
 
 
+_LAST = {}
+
+
 class St:
-    pass
+    def __init__(self):
+        self.kept = []          # (report object of an earlier session, its value when it was handed out, session)
 
 
 _BASE = {}
@@ -544,6 +552,15 @@ def step(S, op):
     base = _BASE[i]
     out = []
     name = SESSIONS[i][0]
+    # a report handed out by an earlier session is the caller's: later sessions may not rewrite it
+    for obj, snap, nm in S.kept:
+        if obj != snap:
+            out.append(("session-isolation", "earlier-report-rewritten-by-later-session",
+                        {"later:" + name}, snap, copy.deepcopy(obj)))
+            break
+    S.kept = [(o, sn, nm) for o, sn, nm in S.kept if o == sn][-2:]
+    if name not in DIRTY:
+        S.kept.append((_LAST["live"], copy.deepcopy(_LAST["live"]), name))
     if base[3] is not None:
         # the session itself cannot run from the pristine state: nothing to compare
         core.CUR.path("session-fails-from-pristine:" + name)
